@@ -171,7 +171,7 @@ def build(spec):
             kv = [kv[i] for i in idx]
         return kv
 
-    text_begin = spec.get('text_begin', HEADER_LEN)
+    text_begin = origin = spec.get('text_begin', HEADER_LEN)
     stext = spec.get('stext')
     analysis = spec.get('analysis')
     # two passes: sizes do not depend on offset values (fixed width W)
@@ -187,15 +187,18 @@ def build(spec):
         text = encode_text(kv_list(0 if tz else bd + to, 0 if tz else ed + to, bs, es,
                                    0 if az else ba, 0 if az else ea),
                            delim, trailing=spec.get('text_trailing', True))
+        sb = encode_text(stext, delim, leading=spec.get('stext_leading', True)) if stext is not None else b''
+        if stext is not None and spec.get('stext_position') == 'before_text':
+            # supplemental TEXT between HEADER and primary TEXT (segment order is free in FCS 3.x)
+            bs, es = origin, origin + len(sb) - 1
+            text_begin = es + 1 + spec.get('pad_before_stext', 0)
         pos = text_begin + len(text)
         text_end = pos - 1
-        if stext is not None:
-            sb = encode_text(stext, delim, leading=spec.get('stext_leading', True))
+        if stext is not None and spec.get('stext_position') != 'before_text':
             pos += spec.get('pad_before_stext', 0)
             bs, es = pos, pos + len(sb) - 1
             pos += len(sb)
-        else:
-            sb = b''
+        elif stext is None:
             bs = es = 0
         pos += spec.get('pad_before_data', 0)
         bd = pos
@@ -226,11 +229,11 @@ def build(spec):
         header += (_f8(hvals['analysis_begin']) + _f8(hvals['analysis_end'])).encode('ascii')
     fill = spec.get('fill_byte', b' ')
     out = bytearray(header)
-    out += fill * (text_begin - len(out))
-    out += text
-    if stext is not None:
-        out += fill * (bs - len(out))
-        out += sb
+    segs = [(text_begin, text)] + ([(bs, sb)] if stext is not None else [])
+    for off, blob in sorted((sg for sg in segs if sg[1]), key=lambda t: t[0]):
+        out += fill * (off - len(out))
+        assert len(out) == off, (len(out), off)
+        out += blob
     out += fill * (bd - len(out))
     out += data
     out += fill * spec.get('pad_after_data', 0)
